@@ -29,6 +29,8 @@ let parse_op (s : string) : api =
   | ["B"; o] -> AToByteStream (nat (int_of_string o))
   | ["N"; o] -> AToNaluSample (nat (int_of_string o))
   | ["A"; o] -> ATouch (nat (int_of_string o))
+  | ["L"; src; d] -> ADecodeLazy (parse_src src, nat (int_of_string d))
+  | ["M"; o; src; d] -> AReadData (nat (int_of_string o), parse_src src, nat (int_of_string d))
   | _ -> failwith ("bad op " ^ s)
 
 let parse_prog (s : string) : api list =
@@ -63,6 +65,10 @@ let () =
         if L.length obs <> L.length model then Printf.printf "MISMATCH %s length\n" id
         else begin
           let bad = ref [] and eff = ref 0 and over = ref 0 in
+          (* hypothesis of C20_api_footprints / C20_api_schedule_independence evaluated on this program, and the number of
+             ReadData ops applied to a lazily decoded object that ran ok (instances of C20_lazy_path_private) *)
+          let hyp = reader_only p || prog_safe t [] p in
+          let lazy_objs = ref [] and lazy_reads = ref 0 in
         (* objects whose byte fields were (partly) replaced by fresh arrays through ATouch, and objects derived from
            them: the table's payload location is a may-alias statement for these, "own" may be observed *)
         let loose = ref [] in
@@ -75,7 +81,9 @@ let () =
             | ATouch o -> if not (L.mem (dst o) !loose) then loose := dst o :: !loose
             | ASamples (o, d) | ADecryptInit (o, d) | AInitProtect (o, d) ->
               if L.mem (dst o) !loose then (if not (L.mem (dst d) !loose) then loose := dst d :: !loose) else rm (dst d)
-            | ADecode (_, d) | ADecodeSR (_, d) | AInfo (_, d) | AEncode (_, d) | AEncodeSW (_, d) -> rm (dst d)
+            | AReadData (o, _, d) ->
+              if L.mem (dst o) !loose then (if not (L.mem (dst d) !loose) then loose := dst d :: !loose) else rm (dst d)
+            | ADecode (_, d) | ADecodeSR (_, d) | AInfo (_, d) | AEncode (_, d) | AEncodeSW (_, d) | ADecodeLazy (_, d) -> rm (dst d)
             | _ -> ()
           end in
           L.iteri (fun i (o, (l, ws)) ->
@@ -84,6 +92,31 @@ let () =
                 let ws = L.map int_of_nat ws in
                 let ch = ints_of_csv changed in
                 track i;
+                (* ConvertByteStreamToNaluSample rewrites in place only when every start code has 4 bytes; otherwise it
+                   returns a fresh slice (avc/annexb.go): from then on the table's payload location over-approximates *)
+                (if i < Array.length progv then
+                   match progv.(i) with
+                   | AToNaluSample o when cls = "ok" && alias = "own" && not (L.mem (int_of_nat o) !loose) ->
+                     loose := int_of_nat o :: !loose
+                   | _ -> ());
+                (if i < Array.length progv then
+                   match progv.(i) with
+                   | ADecodeLazy (_, d) ->
+                     lazy_objs := L.filter (fun x -> x <> int_of_nat d) !lazy_objs;
+                     if cls = "ok" then lazy_objs := int_of_nat d :: !lazy_objs
+                   | AReadData (o, _, d) ->
+                     if cls = "ok" && L.mem (int_of_nat o) !lazy_objs then begin
+                       incr lazy_reads;
+                       if alias <> "own" then bad := Printf.sprintf "op%d:ReadData of a lazily decoded mdat observed=%s (C20_lazy_path_private: own)" i alias :: !bad
+                     end;
+                     lazy_objs := L.filter (fun x -> x <> int_of_nat d) !lazy_objs
+                   | a when L.mem (int_of_nat (api_target a)) !lazy_objs
+                            && (match a with ADecode _ | ADecodeSR _ | AInfo _ | AEncode _ | AEncodeSW _ | ASamples _
+                                             | ADecryptInit _ | AInitProtect _ -> true | _ -> false) ->
+                     lazy_objs := L.filter (fun x -> x <> int_of_nat (api_target a)) !lazy_objs
+                   | _ -> ());
+                if hyp && ch <> [] then
+                  bad := Printf.sprintf "op%d:program satisfies the hypothesis of C20_api_footprints but input(s) %s changed" i changed :: !bad;
                 let target = if i < Array.length progv then int_of_nat (api_target progv.(i)) else -1 in
                 let lean_ok = (alias = "own" && (match l with Input k -> L.mem (int_of_nat k) lean || L.mem target !loose | _ -> false)) in
                 if cls = "ok" && lean_ok then incr over;
@@ -95,7 +128,7 @@ let () =
               | _ -> bad := "bad observation" :: !bad)
             (L.combine obs model);
           match !bad with
-          | [] -> Printf.printf "OK %s over=%d eff=%d\n" id !over !eff
+          | [] -> Printf.printf "OK %s over=%d hyp=%d lazy=%d eff=%d\n" id !over (if hyp then 1 else 0) !lazy_reads !eff
           | b -> Printf.printf "MISMATCH %s %s\n" id (S.concat " " (L.rev b))
         end
       | ["R"; id; mode; progs] ->
